@@ -1,5 +1,7 @@
 package appdrv
 
+import "github.com/rigochain/rigo-go/libs/web3"
+
 // Directed EVM scenarios (C17; also C02/C04/C05/C16 for contract transactions).
 
 func prog(name string, addrs map[string][]byte) []byte { return Asm(Programs[name], addrs) }
@@ -191,6 +193,64 @@ func init() {
 			s.expect(OK(s.CallC(4, cnt, nil, "0", cgas)), "counter call")
 			s.End()
 			s.Blocks(3, allHdr)
+		}},
+		Directed{"native_to_contract", []string{"C16", "C04", "C05", "C17"}, fam(0), func(s *Script) {
+			// native transactions of every type that name a contract account (or a plain third account) as receiver
+			s.Blocks(2, allHdr)
+			s.Begin(allHdr) // 3
+			ev, sink := s.Deploy(4, prog("sink", nil), 0, "0", cgas)
+			s.expect(OK(ev), "deploy a contract that accepts everything")
+			ev, cnt := s.Deploy(5, prog("counter", nil), 1, "0", cgas)
+			s.expect(OK(ev), "deploy counter")
+			s.End()
+			s.Blocks(2, allHdr)
+			kr := s.R.KR
+			for round, to := range [][]byte{sink, cnt, kr.Addr(6)} {
+				s.Begin(Hdr{Proposer: 1 + round%3})
+				tx := web3.NewTrxSetDoc(kr.Addr(4), s.nonce(4), s.gas(), s.price(), "n", "u")
+				tx.To = to
+				s.Deliver(tx, 4, "setdoc:to-other")
+				tx = web3.NewTrxWithdraw(kr.Addr(1), to, s.nonce(1), s.gas(), s.price(), Amt("1000"))
+				s.Deliver(tx, 1, "withdraw:to-other")
+				tx = web3.NewTrxStaking(kr.Addr(5), to, s.nonce(5), s.gas(), s.price(), Amt("2e18"))
+				s.Deliver(tx, 5, "staking:to-other")
+				tx = web3.NewTrxProposal(kr.Addr(2), to, s.nonce(2), s.gas(), s.price(), "m", s.H+2, 2, s.H+8, 0x0101, []byte(`{"gasPrice":"20"}`))
+				s.Deliver(tx, 2, "proposal:to-other")
+				if ids := s.StakeIDs(1, 1); len(ids) > 0 {
+					tx = web3.NewTrxUnstaking(kr.Addr(1), to, s.nonce(1), s.gas(), s.price(), kr.HashOf(ids[0]))
+					s.Deliver(tx, 1, "unstaking:to-other")
+				}
+				s.expect(OK(s.Transfer(4, 5, "1e18")), "an ordinary transfer afterwards")
+				s.expect(OK(s.CallC(6, cnt, nil, "0", cgas)), "a contract call afterwards")
+				s.End()
+			}
+			s.Blocks(2, allHdr)
+		}},
+		Directed{"evm_rejected_then_more", []string{"C05", "C17", "C02", "C16"}, fam(0), func(s *Script) {
+			// contract-routed transactions that the EVM refuses before running any code (gas below the intrinsic gas on the
+			// plain-transfer route, gas above what is left of the block's pool), each followed by native traffic to the same
+			// sender and by further contract transactions in the same block
+			s.Blocks(2, allHdr)
+			s.Begin(allHdr)
+			_, sink := s.Deploy(4, prog("sink", nil), 0, "0", cgas)
+			_, cnt := s.Deploy(4, prog("counter", nil), 1, "0", cgas)
+			s.End()
+			s.Begin(Hdr{Proposer: 2})
+			s.expect(!OK(s.TransferTo(5, sink, "7", 100)), "plain transfer to a contract with gas below the intrinsic gas")
+			s.expect(OK(s.Transfer(6, 5, "500")), "the sender of the refused transaction receives a native transfer")
+			s.expect(OK(s.CallC(6, cnt, nil, "0", cgas)), "another account's contract call")
+			s.expect(OK(s.CallC(5, cnt, nil, "0", cgas)), "the same sender's contract call")
+			s.End()
+			s.Begin(Hdr{Proposer: 3})
+			s.expect(!OK(s.CallC(5, cnt, nil, "0", 26_000_000)), "gas above the block's pool")
+			s.expect(OK(s.Transfer(4, 5, "300")), "native income after the refusal")
+			s.expect(!OK(s.TransferTo(6, sink, "1", 20999)), "one below the intrinsic gas")
+			s.expect(OK(s.TransferTo(6, sink, "1", 21000)), "exactly the intrinsic gas")
+			s.expect(OK(s.CallC(4, cnt, nil, "0", cgas)), "a later contract call by a third account")
+			s.expect(!OK(s.CallC(5, cnt, nil, "0", 24_990_000)), "gas above what is left of the pool")
+			s.expect(OK(s.CallC(5, cnt, nil, "0", cgas)), "the refused sender's next call")
+			s.End()
+			s.Blocks(2, allHdr)
 		}},
 		Directed{"evm_mixed", []string{"C17", "C02", "C04", "C16"}, fam(2), func(s *Script) {
 			// contract transactions interleaved with staking, withdrawal and fees on the same accounts; the proposer uses contracts
